@@ -32,10 +32,13 @@ def check_case(ctx, cs, prop_site="insert_knot"):
     changed = exp != sh0
     ctx.count(hist_key(cs), nontrivial=True, sample={"sh0": {k: sh0[k] for k in ("deg", "kv", "size", "rat")}, "hist": hist,
                                                         "expected_kv": exp["kv"], "expected_size": exp["size"]})
-    for via in ("operations", "method"):
-        site = ("operations." if via == "operations" else "%s." % KIND[len(sh0["deg"])].capitalize()) + prop_site
+    for via in ("operations", "method", "tiny", "huge"):
+        site = ("%s." % KIND[len(sh0["deg"])].capitalize() if via == "method" else "operations.") + prop_site
+        conj = {"tiny": 2.0 ** -40, "huge": 2.0 ** 30}.get(via)
+        if conj is not None:
+            tg = [t for t in tg if not t.startswith("coordinates=")] + ["coordinates=" + via]
         try:
-            obj, infos = replay_history(sh0, hist, via)
+            obj, infos = replay_history(sh0, hist, "operations" if conj is not None else via, conj=conj)
         except Exception as e:
             ctx.violate(site, tg + ["raises"], small, {"exception": repr(e)[:300]})
             continue
